@@ -77,6 +77,40 @@ class Ctx:
             self.violation(v["inv"], v.get("sig", ""), "line %s of %s" % (v.get("l"), rep.get("trace")),
                            [rep.get("trace")])
 
+    # ---- binding self-test ----------------------------------------------------------------
+    def selftest_corruption(self, spec, trace, pick, expect_inv, cfg="Trace.cfg", heap="3g", every=False):
+        """Corrupt one logged number of a recorded trace and require the trace specification to reject it.
+        pick(ev) returns the Dyadic record (a dict inside ev) to corrupt, or None to skip the event.  The first
+        event for which pick returns a record is corrupted (one mantissa limb changed).  A trace specification that
+        still accepts is blind to that field: that is a failure of the machinery (exit 2), never a verdict."""
+        import tlc
+        lines = open(trace).read().splitlines()
+        done = None
+        for i, ln in enumerate(lines):
+            ev = json.loads(ln)
+            d = pick(ev)
+            if d is not None and d.get("k") == "fin" and d.get("m"):
+                d["m"][-1] = d["m"][-1] + 1 if d["m"][-1] < 32767 else 1        # top limb: a relative change >= 3e-5
+                if "b" in d:
+                    d["b"][1] = (d["b"][1] + 1) % 65536
+                lines[i] = json.dumps(ev)
+                done = done or i + 1
+                if not every:
+                    break
+        rec = {"spec": spec, "corrupted_line": done, "expected": expect_inv}
+        if done is None:
+            rec["result"] = "skipped (no applicable event)"
+            self.cov.setdefault("binding_selftests", []).append(rec)
+            return
+        out = trace + ".corrupt"
+        open(out, "w").write("\n".join(lines) + "\n")
+        rep = tlc.validate_trace(spec, out, cfg=cfg, heap=heap)
+        hits = [v for v in rep.get("viol", []) if done <= v.get("l", 0) <= done + 3 or re.search(expect_inv, v["inv"])]
+        rec["result"] = "rejected: " + ", ".join(sorted({v["inv"] for v in hits})) if hits else "ACCEPTED"
+        self.cov.setdefault("binding_selftests", []).append(rec)
+        if not hits:
+            raise RuntimeError("binding self-test failed: %s accepts a trace whose line %d was corrupted" % (spec, done))
+
     # ---- finish ----------------------------------------------------------------------------
     def finish(self, rule, extra_cov=None, exhaustive=None):
         known = load_known(self.pid)
@@ -139,6 +173,8 @@ class Ctx:
         cov["known_findings_hit"] = {k: v[1] for k, v in hit.items()}
         if extra_cov:
             cov.update(extra_cov)
+        if not cov.get("samples"):
+            raise RuntimeError("evidence without samples: the check must record at least one explored case")
         ev = {"property_id": self.pid, "tier": self.tier, "seed": int(self.seed), "level": self.level,
               "coverage": cov, "assumptions": self.assumptions,
               "wall_s": round(time.time() - self.t0, 2), "violations": len(fresh)}
